@@ -7,8 +7,9 @@ from spec_classes import MISSING
 I = S.I
 
 
-def b(has, v=None, init=True):
-    return {"has": has, "v": v if v is not None else S.MISSING, "init": init}
+def b(has, v=None, init=True, as_attr=False):
+    """as_attr: declared as `name = Attr(default=v)` WITHOUT annotation (a re-declaration of an inherited attribute: the class becomes its owner)"""
+    return {"has": has, "v": v if v is not None else S.MISSING, "init": init, "as_attr": as_attr}
 
 
 def klass(bases=(), spec=True, decl=(), body=None, key=None, overflow=None, hand=None, post=False, dnc=None):
@@ -24,6 +25,14 @@ HIER = {
     "key_required": ({"K": klass(decl=["k", "v"], body={"k": b(False), "v": b(True, I(0))}, key="k")}, ["K"]),
     "key_default": ({"K": klass(decl=["k", "v"], body={"k": b(True, I(7)), "v": b(True, I(0))}, key="k")}, ["K"]),
     "overflow": ({"O": klass(decl=["a", "extra"], body={"a": b(True, I(1)), "extra": b(False)}, overflow="extra")}, ["O"]),
+    # the key given a default further down: by a decorated subclass (constructor regenerated) and by a plain subclass (constructor inherited)
+    "key_redefault": ({"Q": klass(decl=["k", "v"], body={"k": b(False), "v": b(True, I(0))}, key="k"),
+                       "SQ": klass(bases=["Q"], body={"k": b(True, I(8))}),
+                       "PQ": klass(bases=["Q"], spec=False, body={"k": b(True, I(7))})}, ["SQ", "PQ"]),
+    # an inherited init=False attribute re-declared through Attr(...) (constructor argument again) / merely re-defaulted (still not one)
+    "init_false_redeclared": ({"P": klass(decl=["a", "x"], body={"a": b(True, I(1), init=False), "x": b(True, I(0))}),
+                               "Q": klass(bases=["P"], decl=["a"], body={"a": b(True, I(5), as_attr=True)}),
+                               "R": klass(bases=["P"], body={"a": b(True, I(6))})}, ["Q", "R"]),
     "overflow_init_false": ({"O": klass(decl=["a", "hid", "extra"], body={"a": b(True, I(1)), "hid": b(True, I(2), init=False), "extra": b(False)}, overflow="extra")}, ["O"]),
     "init_false": ({"P": klass(decl=["a", "hid"], body={"a": b(True, I(1)), "hid": b(True, I(2), init=False)}),
                     "C": klass(bases=["P"], decl=["c"], body={"c": b(True, I(3))})}, ["P", "C"]),
@@ -99,7 +108,9 @@ def source(classes):
             bd = c["body"].get(a, b(False))
             if a == c["overflow"]["name"]:
                 continue
-            if not bd["init"]:
+            if bd.get("as_attr"):
+                body.append(f"{a} = Attr(default={bd['v']['i']}" + ("" if bd["init"] else ", init=False") + ")")
+            elif not bd["init"]:
                 body.append(f"{a}: int = Attr(default={bd['v']['i']}, init=False)")
             elif bd["has"]:
                 body.append(f"{a}: int = {bd['v']['i']}")
